@@ -13,11 +13,27 @@ import (
 const set = "flagv2"
 
 type (
-	Flag    = stdflag.Flag
-	FlagSet = stdflag.FlagSet
-	Value   = stdflag.Value
-	Getter  = stdflag.Getter
+	Flag          = stdflag.Flag
+	FlagSet       = simos.SimFlagSet
+	Value         = stdflag.Value
+	Getter        = stdflag.Getter
+	ErrorHandling = stdflag.ErrorHandling
 )
+
+const (
+	ContinueOnError = stdflag.ContinueOnError
+	ExitOnError     = stdflag.ExitOnError
+	PanicOnError    = stdflag.PanicOnError
+)
+
+// NewFlagSet returns a flag set whose ExitOnError ends the simulated process,
+// not the simulator.
+func NewFlagSet(name string, errorHandling ErrorHandling) *FlagSet {
+	return simos.NewSimFlagSet(name, errorHandling)
+}
+
+// CommandLine is not provided: code that uses it directly does not build
+// against the simulator (reported as an infrastructure error).
 
 var ErrHelp = stdflag.ErrHelp
 
